@@ -22,6 +22,8 @@ def site(fi: FuncInfo, node: ast.AST, label: str, same=None) -> str:
         if isinstance(node, ast.Call):
             txt = ast.unparse(node.func)
             same = lambda n: isinstance(n, ast.Call) and ast.unparse(n.func) == txt   # noqa: E731
+            if txt not in label:
+                label = f'{label}[{txt}]'
         else:
             ty = type(node)
             same = lambda n: isinstance(n, ty)   # noqa: E731
